@@ -15,10 +15,10 @@ import (
 
 type twinKind struct {
 	name   string
-	under  string                   // underlying type
+	under  string                       // underlying type
 	lit    func(T string, n int) string // a non-nil value of named type T
-	nilLit func(T string) string    // a nil value of type T ("" if the kind has none)
-	body   string                   // expression over receiver r giving an int
+	nilLit func(T string) string        // a nil value of type T ("" if the kind has none)
+	body   string                       // expression over receiver r giving an int
 }
 
 var twinKinds = []twinKind{
